@@ -42,6 +42,47 @@ def node_fields(repo):
     return out
 
 
+def _parsed_arguments_coherence(ctx, repo):
+    names = {'ParsedArguments', 'ParsedMacroArgs'}
+    # subclasses (their super().__init__ calls count as constructions)
+    subs = set()
+    for mod in repo.modules.values():
+        for cn, c in mod.classes.items():
+            if any(unparse(b).split('.')[-1] in names for b in c.bases):
+                subs.add(cn.split('.')[-1])
+    n = 0
+    for mod in sorted(repo.modules.values(), key=lambda m_: m_.name):
+        for c in ast.walk(mod.tree):
+            if not isinstance(c, ast.Call):
+                continue
+            cn = call_name(c)
+            is_ctor = cn in names
+            if cn == '__init__' and isinstance(c.func, ast.Attribute) and isinstance(c.func.value, ast.Call) \
+                    and call_name(c.func.value) == 'super' and c.func.value.args and \
+                    unparse(c.func.value.args[0]) in subs:
+                is_ctor = True
+            if not is_ctor:
+                continue
+            kws = {k.arg for k in c.keywords if k.arg}
+            if any(k.arg is None for k in c.keywords):
+                continue            # **kwargs forwarded: decided at the forwarding caller
+            npos = len(c.args)
+            has_list = 'argnlist' in kws or npos >= 1
+            has_spec = bool(kws & {'arguments_spec_list', 'argspec'}) or npos >= 2
+            n += 1
+            fn = enclosing_func(c)
+            cons = '%s: %s' % (getattr(fn, '_qualname', '<module>'), short(c, 70))
+            if has_spec and not has_list:
+                ctx.refuted('R07h', mod, c, 'a ParsedArguments object is built with a specification list '
+                            'but without argument nodes: for a specification shaped like "[{" the legacy '
+                            'view reads argnlist[0] of the empty list -- IndexError when latex2text looks '
+                            'at node.nodeoptarg / node.nodeargs', construct=cons)
+            else:
+                ctx.holds('R07h', mod, c, 'specification and node list given together'
+                          if has_spec else 'no specification given', construct=cons, trivial=not has_spec)
+    ctx.analysed['parsed_arguments_constructions'] = n
+
+
 def run(ctx):
     repo = ctx.repo
     prog = totality.program(repo)
@@ -61,6 +102,10 @@ def run(ctx):
                      'on the spec class of that kind, or the default table guarantees the guard that '
                      'precedes the read (every SpecialsTextSpec has a non-empty replacement, since '
                      'the fall-through reads .discard, which that class does not define)', 9)
+    ctx.rule('R07h', 'every ParsedArguments (ParsedMacroArgs) object is built with both its '
+                     'specification list and its argument-node list, or with neither: the legacy '
+                     'nodeoptarg/nodeargs view, which latex2text reads, indexes the node list by the '
+                     'shape of the specification (IndexError when only the specification is given)', 4)
     ctx.rule('R07g', 'generic renderer methods guard the legacy view node.nodeargs against None '
                      'before len()/subscript/iteration (it is None when the arguments of a macro '
                      'could not be parsed)', 2)
@@ -278,6 +323,9 @@ def run(ctx):
                            'whose arguments could not be parsed (nodeargd=None in tolerant mode): '
                            'TypeError' % (use, txt), construct='%s: %s of %s' % (name, use, txt))
     ctx.analysed['nodeargs_uses_in_renderer'] = n_g
+
+    # ------------------------------------------------------------ R07h
+    _parsed_arguments_coherence(ctx, repo)
 
     # ------------------------------------------------------------ R07e
     spec_attrs = {}
